@@ -247,6 +247,21 @@ check('C17', 'specs/Bencode.tla + specs/DhtIngress.tla + harness/c17_dhtwire.py'
       'case-analytic TLA+ specs with an in-spec reference bencode decoder; TLC-generated structural garbage replayed into the real datagram_received under a watchdog',
       'DESIGN.md 5/C17')
 
+check('C09', 'specs/WalletSync.tla + specs/MCWalletSync.tla + specs/WalletSyncTrace.tla + harness/c09_walletsync.py',
+      'Leg A: TLC explores WalletSync.tla - Ledger.update_history await by await (per-address lock, local status, remote history snapshot, input '
+      'resolution from this address\'s remote history / pending batch / txo table / tx table, batch save resetting the stored history, set history) for two '
+      'addresses, with the chain fund a1 -> spend to a2 + external -> re-spend to a1 added at arbitrary moments, one notification per touched address per '
+      'transaction, every interleaving of up to six tasks (135 k states): HistoryConverged, UtxoConverged, NeverLoseTx, with quiescence shown reachable. '
+      'Leg C: 120 (1500) seeded worlds: a server chain of real raw transactions (fund / spend wallet outputs; outputs to wallet addresses within the gap '
+      'incl. exactly the last watched index, kinds pay/claim/support; third-party outputs of 15 script kinds incl. unparseable ones; confirmed or mempool, '
+      'mempool later mined) grows WHILE a real Ledger / sqlite Database / Account syncs through a fake network under the deterministic loop; the driver '
+      'chooses the notification order, starves single network replies, and picks which reply or database job completes next. Every quiescent point is '
+      'judged by TLC against WalletSyncTrace.tla: no sync failure, stored history = server history for every address, account.get_utxos() = exactly the '
+      'unspent pay outputs to wallet addresses computed in TLA+ from the logged chain, balance = their sum, claims/supports reported apart, gap maintained.',
+      'Trusted: the server is the driver\'s own (its per-address histories are the truth); a notification carries the status current at delivery; a handful '
+      'of transactions per address (<= 100); amounts below 2^31; headers not validated here (C07/C08).',
+      'TLC exhaustive model of update_history interleavings + TLC-judged quiescent points of real wallet sync runs', 'DESIGN.md 5/C09')
+
 NOT_YET = 'check not built yet in this round (design in DESIGN.md section 5); will be claimed once its driver exists'
 ALL = [f'C{i:02d}' for i in range(1, 21)]
 
